@@ -7,6 +7,12 @@ Binding A: TLC-exported (rows, exact loaded object) vectors replayed in EVERY ro
       two unit scalings; widths / edges accepted under either consistent reading (exported exactly).
 Binding B: seeded random rows on a 1/8 micron lattice through the same three sources, one event per
       load (+ create_binner + binned piecewise-constant model), validated by TLC + canary.
+Last sentence (model binned to the observation, element by element): spec/ObsBin.tla defines the model
+      over exactly [wn_i - w_i/2, wn_i + w_i/2] with Binning!Binned (overlap-weighted mean) and the window
+      algorithm of FluxBinner with the "search resumed from the previous bin" slips; spec/MC_ObsBin.tla
+      checks it for narrow channels + broad bands (overlapping, nested, gapped bins, edges that do not
+      ascend with the centres) in every row order, refutes the slips and exports (rows, native model,
+      exact binned model) vectors; 4-column trace events carry a random native model decided by TLC.
 """
 import itertools
 import os
@@ -139,10 +145,38 @@ def judge_vector(ctx, vec, perm, source, scale, tmpdir, ref):
         gok, wok, aligned, binned = False, False, False, repr(exn)
     ctx.verdict('binner_aligned', gok and wok and aligned is not False, cls=cls,
                 detail='binner grid ok %r widths ok %r binned model %r vs values %r' % (gok, wok, binned, o['val'].tolist()), vector=meta)
+    if 'nat' in vec:
+        judge_model(ctx, vec, obs, o, s, allclose(o['wid'], wA, REL), allclose(o['wid'], wB, REL), cls, meta)
     if ref is not None:
         same = all(np.array_equal(o[k], ref[k]) for k in ('wn', 'val', 'err', 'wid', 'ed'))
         ctx.verdict('permutation_invariant', same, cls=cls, detail='differs from the object loaded from rows sorted by wavelength', vector=meta)
     return o
+
+
+GEO = ('overlap', 'nested', 'gap', 'lownonasc', 'upnonasc', 'widthsdiffer')
+
+
+def geo_class(g):
+    return '+'.join(k for k in GEO if g.get(k)) or 'disjoint-ascending'
+
+
+def judge_model(ctx, vec, obs, o, s, isA, isB, cls, meta):
+    """Native model of the spec (cells vec['nat'] cm-1, values vec['f']) binned with the observation's
+    own binner, native points shuffled: element i = exact overlap-weighted mean over the bin of element i
+    (TLC: ObsBin!ModelOnObs), for the reading the loaded widths follow."""
+    nat = np.array(vec['nat'], float) * s
+    c, w, f = (nat[:, 0] + nat[:, 1]) / 2, nat[:, 1] - nat[:, 0], np.array(vec['f'], float)
+    p = np.random.RandomState(len(c) + len(vec['rows'])).permutation(len(c))
+    cands = [(k, [float(frac(x)) for x in vec['mod' + k]]) for k, on in (('A', isA or not isB), ('B', isB)) if on]
+    gcls = cls + ':bins=' + geo_class(vec['geo' + cands[0][0]])
+    try:
+        out = obs.create_binner().bindown(c[p], f[p], grid_width=w[p])
+        got = np.asarray(out[1], float)
+        ok = np.array_equal(out[0], o['wn']) and any(len(got) == len(e) and all(close(g, x, rel=1e-9) for g, x in zip(got, e)) for _, e in cands)
+        detail = 'binned model %r expected %r (bin centres %r widths %r)' % (got.tolist(), cands[0][1], o['wn'].tolist(), o['wid'].tolist())
+    except Exception as exn:
+        ok, detail = False, 'exception %r' % exn
+    ctx.verdict('model_binned_over_own_centre_and_width', ok, cls=gcls, detail=detail, vector=meta)
 
 
 def run_vectors(ctx, vecs, rng, perm_cap):
